@@ -49,7 +49,7 @@ class MultitaskKernel(Kernel):
         covar_i = self.task_covar_module.covar_matrix
         if len(x1.shape[:-2]):
             covar_i = covar_i.repeat(*x1.shape[:-2], 1, 1)
-        covar_x = to_linear_operator(self.data_covar_module.forward(x1, x2, **params))
+        covar_x = to_linear_operator(self.data_covar_module(x1, x2, **params))
         res = KroneckerProductLinearOperator(covar_x, covar_i)
         return res.diagonal(dim1=-1, dim2=-2) if diag else res
 
